@@ -34,12 +34,21 @@ def gen_param(rng, T, kind, lo, hi, shape=None, first_pos=False):
 	return py, frs(raw), vals
 
 
+MUTATED = []
+
+
 def py_ww(T, h, K, d, c):
 	from stockpyl.wagner_whitin import wagner_whitin
+	import copy
+	keep = copy.deepcopy((h, K, d, c))
 	try:
 		Q, cost, theta, s = wagner_whitin(T, h, K, d, c)
 	except Exception as e:
 		return {'error': err_enum(e)}
+	for nm_, a_, b_ in zip(('holding_cost', 'fixed_cost', 'demand', 'purchase_cost'), (h, K, d, c), keep):
+		if not np.array_equal(np.asarray(a_, dtype=float), np.asarray(b_, dtype=float)):
+			# the plan is feasible, optimal, ... for the demands the CALLER holds: an argument rewritten in place is no longer the instance that was solved
+			MUTATED.append('wagner_whitin rewrote its %s argument in place: %r -> %r' % (nm_, b_, a_))
 	return {'Q': [Fraction(float(q)) for q in Q[1:]], 'cost': Fraction(float(cost)),
 			'theta': [Fraction(float(x)) for x in theta[1:]], 'next': [int(x) for x in s[1:]]}
 
@@ -131,6 +140,8 @@ def one_case(rep, drv, case):
 
 
 def compare(rep, stream, case, py, m, admissible, norm=None):
+	while MUTATED:
+		rep.diff(stream, MUTATED.pop(), case, py=None, model=None, oracle=True, theorem=THEOREM)
 	same = (py == m)
 	rep.exact_cmp += 1
 	fails = None
